@@ -132,6 +132,20 @@ def search(chk, broken):
         evals += 1
         desc = {'op': 'ode', 'range_ft': R, 'mv_fps': shot.ammo.mv >> U.FPS, 'bc': shot.ammo.dm.BC, 'look_deg': shot.look_angle >> U.Degree,
                 'cant_deg': shot.cant_angle >> U.Degree, 'alt_ft': shot.atmo.altitude >> U.Foot, 'winds': [(w.velocity >> U.FPS, w.direction_from >> U.Degree, w.until_distance >> U.Foot) for w in shot.winds]}
+        # A wind segment switches up to one step late.  That part of the error is a SAWTOOTH in h (it does not shrink monotonically under
+        # halving); its size follows from the physics: a wind change dw acting one step (h / v) too late changes the velocity by
+        # D * dw * h / v (D = deceleration rate, 1/s, estimated from the rows themselves), and the position by that times the time
+        # of flight.  Zero when no segment ends inside the range.
+        n_sw = sum(1 for w in shot.winds if (w.until_distance >> U.Foot) < R)
+        if n_sw:
+            sp = [(r.velocity >> U.FPS, r.time) for r in runs[0]]
+            D = max([abs(v0 - v1) / (max(t1 - t0, 1e-9) * v0) for (v0, t0), (v1, t1) in zip(sp, sp[1:])] + [0.0])
+            w_max = max(w.velocity >> U.FPS for w in shot.winds)
+            v_min = max(min(v for v, _ in sp), 1.0)
+            dv = 2.0 * n_sw * D * 2.0 * w_max * h0 / v_min
+            saw = {'height': dv, 'windage': dv, 'speed': dv, 'time': dv * sp[-1][1] / v_min + 1e-9}
+        else:
+            saw = {'height': 0.0, 'windage': 0.0, 'speed': 0.0, 'time': 0.0}
         for k, x in enumerate(xs):
             if x not in ref:
                 continue
@@ -141,18 +155,20 @@ def search(chk, broken):
                 a, b, c = get(runs[0][k]), get(runs[1][k]), get(runs[2][k])
                 err0, err1, err2 = abs(a - refv), abs(b - refv), abs(c - refv)
                 # first-order estimate of the discretisation error from the solver's own refinements (the wind-switch delay is a
-                # sawtooth in h, so the larger of the two successive estimates is used)
+                # sawtooth in h, so the larger of the two successive estimates is used and the bound `saw` computed above is added)
                 change = max(abs(a - b), 2 * abs(b - c))
                 scale = max(abs(refv), 1e-3)
                 floor = 2e-7 * scale + 1e-7
                 # at the default step: error no more than the solver's own first-order discretisation error (a small multiple of the change under halving)
-                if err0 > 4.0 * change + floor:
+                abs_floor = saw[name] * max(runs[0][k].time, 1e-3) if name in ('height', 'windage') else saw[name]
+                if err0 > 4.0 * change + floor + abs_floor:
                     chk.failures.append(Failure(f'not-the-ode-solution:{name}',
                                                 f'{name} at {x:.0f} ft: solver {a!r}, reference {refv!r}: error {err0:.3e} exceeds 4 x the change under step halving {change:.3e}',
                                                 {**desc, 'x_ft': x, 'quantity': name, 'observed': a, 'expected': refv, 'change_under_halving': change}))
                     break
                 # convergence: the error shrinks as the step is refined
-                if err0 > 50 * floor and not (err2 < 0.6 * err0):
+                # (below the sawtooth bound a non-monotone error is not evidence against convergence)
+                if err0 > max(50 * floor, abs_floor) and not (err2 < 0.6 * err0):
                     chk.failures.append(Failure(f'no-convergence:{name}',
                                                 f'{name} at {x:.0f} ft: errors {err0:.3e}, {err1:.3e}, {err2:.3e} at steps h, h/2, h/4 do not shrink',
                                                 {**desc, 'x_ft': x, 'quantity': name, 'errors': [err0, err1, err2]}))
